@@ -528,6 +528,14 @@ fn dispatch(name: &str, a: &mut Args) -> String {
 		},
 		"node_announcement_probe" => node_announcement_probe(a),
 		"node_announcement_addr_probe" => node_announcement_addr_probe(a),
+		"recompute_fees_probe" => {
+			// <value_msat> <N> then per hop (payer -> payee): <fee_base_msat> <fee_prop> <htlc_minimum_msat> <hop_use_fee_msat>
+			let value = a.u64();
+			let n = a.usize();
+			let hops: Vec<(u32, u32, u64, u64)> = (0..n).map(|_| (a.u32(), a.u32(), a.u64(), a.u64())).collect();
+			let (v, fees) = lightning::routing::router::verif_hooks::recompute_fees_probe(&hops, value);
+			format!("{} {}", v, fees.iter().map(|f| f.to_string()).collect::<Vec<_>>().join(" "))
+		},
 		"route_overpay_probe" => route_overpay_probe(a),
 		"route_mpp_overpay_probe" => route_mpp_overpay_probe(a),
 		"channel_config_roundtrip" => {
